@@ -75,7 +75,8 @@ def run_translator():
 def coq_make(targets=None):
     """full .vo build (incremental). returns (ok, log)"""
     if RTAG:
-        rc, out = sh(["rsync", "-a", "--exclude", "Gen.v", "--exclude", "Gen.vo", "--exclude", "Gen.glob", "--exclude", ".Makefile.d",
+        rc, out = sh(["rsync", "-a", "--exclude", "Gen*.v", "--exclude", "Gen*.vo", "--exclude", "Gen*.vos", "--exclude", "Gen*.vok",
+                      "--exclude", "Gen*.glob", "--exclude", ".Gen*.aux", "--exclude", ".Makefile.d",
                       COQ_SRC + "/", COQ + "/"])
         if rc != 0:
             return False, out
